@@ -237,7 +237,8 @@ def specOut (c : Call) (pi : PatInfo) : Res (List String) × List (List String) 
 
 /-- known-finding class of this call's input, if any (classes are keyed by input shape; see known_findings.jsonl) -/
 def kfClass (c : Call) (pi : PatInfo) : Option String :=
-  if pi.st.rangeEsc then some "C14-set-range-upper-escape"
+  if pi.st.frontier then some "C14-frontier-unimplemented"
+  else if pi.st.rangeEsc then some "C14-set-range-upper-escape"
   else if c.fn = "gsub" && c.kind = "S" && (match parseStr c.arg with | some b => replPercentNonDigit b | none => false) then
     some "C14-gsub-repl-percent-nondigit"
   else none
@@ -247,7 +248,7 @@ def isErrReply (impl : List String) : Bool :=
 
 /-- the property-level judgement of one call -/
 def judge (c : Call) (pi : PatInfo) (impl : List String) : Option String :=
-  if pi.hasNul ∨ pi.st.frontier then none else
+  if pi.hasNul then none else
   let (spec, noMatch) := specOut c pi
   if !pi.st.ok then
     if isErrReply impl ∨ noMatch.contains impl then none
